@@ -200,7 +200,7 @@ Proof.
   destruct (k_thresholds c) as [|t0 ths] eqn:Et; [congruence|]. cbn [map].
   assert (HB : files_wf B = true) by apply files_wf_files_of.
   assert (HBB : V_eqb B B = true) by apply V_eqb_refl.
-  cbn [forallb]. rewrite HB, (forallb_const files_wf B ths HB). cbn [andb].
+  cbn [forallb]. rewrite !HB, (forallb_const files_wf B ths HB). cbn [andb].
   cbn [length]. rewrite map_length, Nat.eqb_refl. cbn [andb].
   rewrite (forallb_const (V_eqb B) B ths HBB), HBB. rewrite !andb_true_r.
   (* every trace file *)
